@@ -479,12 +479,25 @@ def cov_extra_sources():
     return [os.path.join(REPO, x) for x in Check.LIBNLW2_SRC if not x.endswith('nl-utils.cc')]
 
 
+def regen_guards(ck):
+    """regenerate lean/MpVerif/Gen/SolGuards.lean from the tree under test (translator tie, ROUND 4); returns error text or None"""
+    rc, out, err = sh([sys.executable, os.path.join(VERIF, 'translators', 'gen_solguards.py'), REPO,
+                       os.path.join(LEAN, 'MpVerif', 'Gen', 'SolGuards.lean'), os.path.join(BUILD, 'tr')], timeout=600)
+    ck.log((out.strip() or err.strip())[-300:])
+    ck.cov['translator'] = 'translators/gen_solguards.py: 10 integer decisions of sol-reader2.hpp / sol.h + the writer format list, regenerated from the tree under test'
+    return None if rc == 0 else (out + err).strip()[-500:]
+
+
 def run(ck):
     if os.environ.get('VERIF_COVERAGE'):
         return coverage_run(ck)
     ck.level = 'proof'
+    tr_err = regen_guards(ck)
+    if tr_err:
+        ck.add_violation('translator:sol-guards', 'the integer decisions of the SOL reader/writer could not be re-translated from the source (the code around them changed): %s' % tr_err,
+                         {'translator': 'translators/gen_solguards.py', 'output': tr_err}, found_input=False)
     proof_ok, failing = ck.proof_stage('MpVerif.C14.Props', 'MpVerif/C14/Props.lean', 'C14_',
-                                        ['MpVerif/C14/*.lean'], expect_min=21)
+                                        ['MpVerif/C14/*.lean', 'MpVerif/Gen/SolGuards.lean'], expect_min=30)
     ck.log('proof stage: ok=%s failing=%s' % (proof_ok, failing[:12]))
     if ck.tier == 'thorough' and proof_ok:
         bad = ck.leanchecker(['MpVerif.C14.Props'])
